@@ -266,3 +266,37 @@ def apply(tree, module_name):
                 n.name = ren[n.name]
                 changed += 1
     return changed
+
+
+LEXER_API = {"hasNext", "next", "peek", "eat", "previous", "getPos", "getPosNext", "peekn", "peekOne", "matchIf",
+             "match", "matchIdentifier"}
+
+
+def name_cursor_parameters(tree):
+    """A parameter that the canonical table does not know (a new helper) but on which the token-cursor API is called
+    is the lexer: it gets the name the rules know it by.  -> number of functions touched"""
+    n = 0
+    for q, fn in _quals(tree):
+        params = [a.arg for a in fn.args.posonlyargs + fn.args.args]
+        if "lexer" in params:
+            continue
+        bound = {x.id for x in ast.walk(fn) if isinstance(x, ast.Name) and isinstance(x.ctx, (ast.Store, ast.Del))}
+        if "lexer" in bound:
+            continue
+        uses = {}
+        for c in ast.walk(fn):
+            if isinstance(c, ast.Call) and isinstance(c.func, ast.Attribute) and isinstance(c.func.value, ast.Name) \
+                    and c.func.value.id in params and c.func.attr in LEXER_API:
+                uses.setdefault(c.func.value.id, set()).add(c.func.attr)
+        cands = [p for p, m in uses.items() if len(m) >= 1 and (m & {"peekn", "peekOne", "matchIf", "matchIdentifier",
+                                                                     "getPosNext", "hasNext"})]
+        if len(cands) != 1:
+            continue
+        old = cands[0]
+        for x in ast.walk(fn):
+            if isinstance(x, ast.Name) and x.id == old:
+                x.id = "lexer"
+            elif isinstance(x, ast.arg) and x.arg == old:
+                x.arg = "lexer"
+        n += 1
+    return n
